@@ -102,6 +102,8 @@ func Main() {
 		os.Exit(c05Dump(os.Args[2:]))
 	case "realop":
 		os.Exit(realOpMain())
+	case "animdump":
+		os.Exit(animDump(os.Args[2:]))
 	case "vp8craft-selftest":
 		os.Exit(vp8CraftSelfTest(os.Args[2:]))
 	case "props":
